@@ -120,7 +120,9 @@ class ILI(_DatabaseEntity):
         return hash(self._key())
 
     def _key(self) -> tuple[bool, int]:
-        return (self.status == 'proposed', self._id)
+        # only proposed ILIs have no id (an ILI listed in an index file
+        # may have any status, 'proposed' included)
+        return (self.id is None, self._id)
 
     def __repr__(self) -> str:
         return f'ILI({repr(self.id) if self.id else "*PROPOSED*"})'
@@ -130,7 +132,7 @@ class ILI(_DatabaseEntity):
 
     def metadata(self) -> Metadata:
         """Return the ILI's metadata."""
-        table = 'proposed_ilis' if self.status == 'proposed' else 'ilis'
+        table = 'proposed_ilis' if self.id is None else 'ilis'
         return get_metadata(self._id, table)
 
 
